@@ -100,6 +100,14 @@ CLAIMED = {
                 note='Two symbolic kernels are chained (source reconstruction, then the lexer of C01). Arrays inside formulas and image rendering are outside the claim; bodies containing '
                      'the complete end delimiter are excluded as the property says.',
                 ref='DESIGN.md section 5 C11'),
+    'C12': dict(level='model_checking',
+                text='The real PageTemplate renderer object, with no templates loaded, renders parsed skeletons with one text leaf in each of 8 positions (paragraph, footnote, list item, '
+                     'table cell, nested emphasis, verbatim, \\verb, caption) made of 2 (thorough 3) symbolic characters over {<, >, ;, #, letter, & in verbatim} and EVERY code point '
+                     '128..0x10FFFF, plus 8 concrete tag-/entity-like strings, escape-high-chars on and off: decoding the output as HTML gives back exactly the source characters, the '
+                     'output contains no raw < or >, and with escaping on it is pure ASCII (numeric references decode to the code point - proved by z3 on symbolic digits).',
+                note='PARTIAL: covers the text hook (textDefault), the render recursion that routes text and .str shortcuts through it, and processFileContent. What each Jinja2/ZPT '
+                     'template does with a node string - the part the property worries about most - is outside the claim (compiled template code and markupsafe are beyond the engine).',
+                ref='DESIGN.md section 5 C12'),
     'C13': dict(level='model_checking',
                 text='The real base Renderer runs end to end (render: split-level/template interpretation, cacheFilenames, Renderable.filename, __str__ file routing, Filenames, '
                      'cleanup, unmix) on 4 document skeletons x 6 filename templates with the split level a z3 integer in [-10, 6] and the first title symbolic (for $title '
